@@ -230,3 +230,29 @@ m("m17i", "C17", "sqllineage/utils/helpers.py",
   "            with open(os.path.expanduser(os.path.expandvars(args.f))) as f:\n                sql = f.read()\n",
   "control-ish: variable expansion at read time but not at check time (no $ in generated paths)", expect="miss",
   more=[("sqllineage/utils/helpers.py", "import logging\n", "import logging\nimport os\n")])
+
+# ---------------------------------------------------------------- C11
+m("m11a", "C11", "sqllineage/runner.py",
+  "        return sorted(self._sql_holder.source_tables, key=lambda x: str(x))\n",
+  "        return list(self._sql_holder.source_tables)\n",
+  "source_tables no longer sorted (set order = hash order)")
+m("m11b", "C11", "sqllineage/runner.py",
+  "            key=lambda x: (str(x[-1]), str(x[0]), [str(c) for c in x]),\n",
+  "            key=lambda x: (str(x[-1]), str(x[0])),\n",
+  "ties in the column-path sort key restored (the repaired defect)")
+m("m11c", "C11", "sqllineage/core/models.py",
+  "        return sorted(self._parent, key=lambda p: str(p))\n",
+  "        return list(self._parent)\n",
+  "parent candidates unsorted")
+m("m11e", "C11", "sqllineage/core/holders.py",
+  "                    for src_wildcard in sorted(\n                        self.get_source_columns(tgt_wildcard), key=lambda c: str(c)\n                    ):\n",
+  "                    for src_wildcard in self.get_source_columns(tgt_wildcard):\n",
+  "wildcard sources visited in set order again (the repaired defect)")
+m("m11f", "C11", "sqllineage/core/holders.py",
+  "                    key=lambda x: x[2].get(EdgeTag.INDEX, 0),\n",
+  "                    key=lambda x: 0,\n",
+  "rename pairs no longer ordered by position (the repaired defect, partly)")
+m("m11g", "C11", "sqllineage/core/holders.py",
+  "    def _get_target_table(self) -> Optional[Union[SubQuery, Table]]:\n        table = None\n        if write_only := self.write.difference(self.read):\n            table = next(iter(write_only))\n",
+  "    def _get_target_table(self) -> Optional[Union[SubQuery, Table]]:\n        table = None\n        if write_only := self.write.difference(self.read):\n            table = next(iter(write_only))\n        elif self.write:\n            table = next(iter(self.write))\n",
+  "target table falls back to 'the first' written table when every written table is also read")
